@@ -46,10 +46,11 @@ class shapefactor_builder:
         moddata = self.collect(thismod, nom)
         self.builder_data[key][sample]['data']['mask'] += moddata['mask']
         if thismod:
-            self.required_parsets.setdefault(
-                thismod['name'],
-                [required_parset(defined_samp['data'], thismod['data'])],
-            )
+            parset = required_parset(defined_samp['data'], thismod['data'])
+            # keep conflicting requirements (e.g. a shapefactor shared between channels with
+            # different numbers of bins) so that they are refused when the paramsets are reduced
+            if parset not in self.required_parsets.setdefault(thismod['name'], [parset]):
+                self.required_parsets[thismod['name']].append(parset)
 
     def finalize(self):
         return self.builder_data
